@@ -267,7 +267,7 @@ func distinctive(ft reflect.Type, a *spec.Attr) reflect.Value {
 			v.Set(reflect.ValueOf([]byte("probe-value")).Convert(t))
 		case t.Kind() == reflect.Float32 || t.Kind() == reflect.Float64:
 			v.SetFloat(42.5)
-		case t.Kind() == reflect.Uint32 || t.Kind() == reflect.Uint64:
+		case t.Kind() == reflect.Uint32 || t.Kind() == reflect.Uint64 || t.Kind() == reflect.Uint:
 			v.SetUint(42)
 		default:
 			n := int64(42)
